@@ -51,6 +51,10 @@ pub fn child(args: &[String]) {
         libc::prctl(libc::PR_SET_PDEATHSIG, libc::SIGKILL);
     }
     let port: u16 = args[0].parse().expect("port");
+    if std::env::var_os("VERIF_CHILD_STDERR").is_some() {
+        // diagnostics only: the application's own log lines on stderr
+        let _ = tracing_subscriber::fmt().with_env_filter("info").with_writer(std::io::stderr).try_init();
+    }
     let mut c = passage::config::Config::default();
     c.address = format!("127.0.0.1:{port}");
     c.max_packet_length = args[1].parse().expect("max");
@@ -86,7 +90,13 @@ pub fn child(args: &[String]) {
     match r {
         Ok(()) => std::process::exit(0),
         Err(e) => {
-            eprintln!("passage::start failed: {e}");
+            eprintln!("passage::start failed: {e} (args {args:?})");
+            if let Ok(o) = std::process::Command::new("ss").arg("-tanp").output() {
+                let port = args.first().cloned().unwrap_or_default();
+                for l in String::from_utf8_lossy(&o.stdout).lines().filter(|l| l.contains(&format!(":{port} "))) {
+                    eprintln!("    ss: {l}");
+                }
+            }
             std::process::exit(3)
         }
     }
@@ -151,7 +161,7 @@ fn spawn_from_files(conf: &Conf) -> App {
     if env_secret {
         cmd.env("PASSAGE_AUTHSECRET", ENV_SECRET);
     }
-    let child = cmd.stdout(std::process::Stdio::null()).stderr(std::process::Stdio::null()).spawn().expect("spawn child");
+    let child = cmd.stdout(std::process::Stdio::null()).stderr(if std::env::var_os("VERIF_CHILD_STDERR").is_some() { std::process::Stdio::inherit() } else { std::process::Stdio::null() }).spawn().expect("spawn child");
     let addr: SocketAddr = format!("127.0.0.1:{port}").parse().unwrap();
     for _ in 0..600 {
         if std::net::TcpStream::connect_timeout(&addr, Duration::from_millis(200)).is_ok() {
@@ -175,12 +185,32 @@ fn stop(app: App) -> Option<i32> {
     stop_app(app)
 }
 
-fn handshake_with_length(total: usize, next: i32) -> Option<Vec<u8>> {
-    // find a host name length such that the declared frame length is exactly `total`
-    for n in 0..=total {
-        let f = codec::sb_handshake(769, &"h".repeat(n), 25565, next);
+/// a handshake whose declared frame length is exactly `total`; with `legal_only` the host name stays within the
+/// protocol's 255 UTF-16 units (three-byte characters make the frame longer without making the name longer), so
+/// that a router which enforces the protocol's own field limits still has to serve it
+fn handshake_with_length_legal(total: usize, next: i32, legal_only: bool) -> Option<Vec<u8>> {
+    let fits = |host: &str| {
+        let f = codec::sb_handshake(769, host, 25565, next);
         let (l, _) = codec::get_varint(&f).unwrap();
-        if l as usize == total {
+        (l as usize == total).then_some(f)
+    };
+    for n in 0..=total.min(255) {
+        if let Some(f) = fits(&"h".repeat(n)) {
+            return Some(f);
+        }
+    }
+    for wide in 1..=255usize {
+        for narrow in 0..=(255 - wide).min(2) {
+            if let Some(f) = fits(&format!("{}{}", "\u{20ac}".repeat(wide), "h".repeat(narrow))) {
+                return Some(f);
+            }
+        }
+    }
+    if legal_only {
+        return None;
+    }
+    for n in 256..=total {
+        if let Some(f) = fits(&"h".repeat(n)) {
             return Some(f);
         }
     }
@@ -220,7 +250,9 @@ async fn frame_length_cases(addr: SocketAddr, conf: &Conf, out: &Mutex<Vec<Viol>
     let max = conf.max_packet_length as usize;
     let mut n = 0;
     for (len, must_serve) in [(max, true), (max + 1, false), (max.saturating_sub(1).max(7), true), (max + 50, false)] {
-        let Some(hs) = handshake_with_length(len, 1) else { continue };
+        // (a frame that must be served is a legal handshake in every other respect too; longer ones than a legal
+        // handshake can be are measured against the limit in `later_frame_length_cases`)
+        let Some(hs) = handshake_with_length_legal(len, 1, must_serve) else { continue };
         if len < 7 {
             continue;
         }
@@ -406,6 +438,13 @@ async fn later_frame_length_cases(addr: SocketAddr, conf: &Conf, out: &Mutex<Vec
             if o.error.is_some() {
                 out.lock().unwrap().push(("login-failed".into(), format!("could not reach the state before the {which} frame: {:?}", o.error), replay));
                 continue;
+            }
+            // (what the server sent ahead of time - a router may ask for both cookies at once - is no answer to the
+            // frame that follows)
+            while let Ok(pk) = c.read_packet(Duration::from_millis(250)).await {
+                if !matches!(pk, Pkt::KeepAlive { .. } | Pkt::LoginCookieRequest { .. }) {
+                    break;
+                }
             }
             let _ = c.send(&frame).await;
             if which == "plugin-message" {
